@@ -65,7 +65,7 @@ impl Wire {
 			Wire::Reest(m) => format!("[\"reest\",{},{}]", m.next_local_commitment_number, m.next_remote_commitment_number),
 			Wire::Ready(_) => "[\"ready\"]".to_string(),
 			Wire::AnnSigs(_) => "[\"annsigs\"]".to_string(),
-			Wire::Shutdown(_) => "[\"shutdown\"]".to_string(),
+			Wire::Shutdown(m) => format!("[\"shutdown\",{}]", m.scriptpubkey.len()),
 			Wire::ClosingSigned(m) => format!("[\"closing_signed\",{}]", m.fee_satoshis),
 		}
 	}
